@@ -70,7 +70,7 @@ def distort(v, rng, amount=1):
     return v @ m.T + t
 
 
-def make_grid(name, rng=None, distorted=False, domains=None):
+def make_grid(name, rng=None, distorted=False, domains=None, jitter=False):
     if name == "octa":
         v, e = OCTA_V, OCTA_E
         dom = [0, 0, 0, 0, 1, 1, 1, 1]
@@ -107,6 +107,9 @@ def make_grid(name, rng=None, distorted=False, domains=None):
     v = np.asarray(v, dtype=float)
     if distorted:
         v = distort(v, rng)
+    if jitter:
+        # per-vertex dyadic perturbation: element areas become non-uniform even on planar screens
+        v = v + rng.integers(-2, 3, size=v.shape) / 16.0
     return _grid(v, e, dom)
 
 
@@ -383,6 +386,9 @@ def designed_opts(grid, kind, rng, avoid=None, partner=None, tries=400):
                 continue
         if avoid is not None and bool(np.array_equal(sp.support, avoid)):
             continue
+        ie = grid.integration_elements
+        if bool(np.allclose(ie[sup], ie[:n], rtol=1e-3)) and not bool(np.allclose(ie, ie[0], rtol=1e-3)):
+            continue        # the areas at the positions must differ from the areas of the support elements
         if partner is not None and not any(not (vsets[a] & vsets[b]) for a in sup for b in np.flatnonzero(partner)):
             continue
         return opts, sp
